@@ -105,6 +105,10 @@ class Gen:
          dict(identifier=3, bank_range=(0x7E, 0x7F), addr_range=(0, 0xFFFF), mask=0x10000, writable=1)],
         [dict(identifier=1, bank_range=(0x00, 0x3F), addr_range=(0x8000, 0xFFFF), mask=0x10000, mirror_bank_range=(0x80, 0xBF)),
          dict(identifier=2, bank_range=(0x7E, 0x7F), addr_range=(0, 0xFFFF), mask=0x10000, writable=1)],
+        # battery RAM 70-7D seen again at F0-FD (a RAM mapping with a mirror), work RAM, LoROM
+        [dict(identifier=1, bank_range=(0x00, 0x6F), addr_range=(0x8000, 0xFFFF), mask=0x8000, mirror_bank_range=(0x80, 0xEF)),
+         dict(identifier=3, bank_range=(0x70, 0x7D), addr_range=(0, 0x7FFF), mask=0x8000, writable=1, mirror_bank_range=(0xF0, 0xFD)),
+         dict(identifier=2, bank_range=(0x7E, 0x7F), addr_range=(0, 0xFFFF), mask=0x10000, writable=1)],
     ]
 
     def rom_addr(self) -> int:
